@@ -13,19 +13,23 @@ import (
 // Buffering: the client gets nothing yet; every body byte is in the buffer.
 func c12R7(h H) {
 	r := h.r
-	r.Rule("R7", "the buffering response writer as a decision table (E10): a ResponseBuffer made by NewResponseBuffer, for the decision buffer / stream, with and without an explicit WriteHeader(418), and the body arriving through Write or through ReadFrom: when streaming the wrapped writer receives the header exactly once with the right status and then the body, and the buffer nothing; when buffering the buffer receives the body and the wrapped writer nothing", 1)
+	r.Rule("R7", "the buffering response writer as a decision table (E10): a ResponseBuffer made by NewResponseBuffer, for the decision buffer / stream, with and without an explicit WriteHeader(418), and the body arriving through Write or through ReadFrom: when streaming the wrapped writer receives the header exactly once with the right status and then the body, and the buffer nothing; when buffering the buffer receives the body and the wrapped writer nothing; Buffered() answers true exactly when the response is held back, also for a header-only response", 1)
 	mk := h.fn("R7", hs, "NewResponseBuffer")
 	wh := h.fn("R7", hs, "(*ResponseBuffer).WriteHeader")
 	wr := h.fn("R7", hs, "(*ResponseBuffer).Write")
 	rf := h.fn("R7", hs, "(*ResponseBuffer).ReadFrom")
-	if mk == nil || wh == nil || wr == nil || rf == nil {
+	bf := h.fn("R7", hs, "(*ResponseBuffer).Buffered")
+	if mk == nil || wh == nil || wr == nil || rf == nil || bf == nil {
 		return
 	}
 	hdrT, _ := types.Unalias(h.p.typeByName("net/http", "Header")).Underlying().(*types.Map)
 	bad, n := "", 0
 	for _, stream := range []bool{true, false} {
 		for _, explicit := range []bool{false, true} {
-			for _, via := range []string{"Write", "ReadFrom"} {
+			for _, via := range []string{"Write", "ReadFrom", "nothing (a header-only response)"} {
+				if via[0] == 'n' && !explicit {
+					continue
+				}
 				n++
 				desc := fmt.Sprintf("decision stream=%v, explicit WriteHeader(418)=%v, body through %s", stream, explicit, via)
 				under := &aobj{name: "wrapped writer", typ: types.Typ[types.Int], f: map[string]aval{}}
@@ -68,6 +72,8 @@ func c12R7(h H) {
 							toClient += size(args[len(args)-1])
 							return atuple{aint(size(args[len(args)-1])), anil{}}, true
 						}
+					case callee == "(*bytes.Buffer).Len":
+						return aint(toBuffer), true
 					case callee == "(*bytes.Buffer).Write":
 						toBuffer += size(args[1])
 						return atuple{aint(size(args[1])), anil{}}, true
@@ -108,7 +114,9 @@ func c12R7(h H) {
 					}
 				}
 				want := int64(3)
-				if via == "Write" {
+				if via[0] == 'n' {
+					want = 0
+				} else if via == "Write" {
 					buf := newVals([]aval{aint(1), aint(2), aint(3)}, types.Typ[types.Uint8])
 					_, und = env.run(wr, []aval{rb, buf})
 				} else {
@@ -131,6 +139,17 @@ func c12R7(h H) {
 					bad = fmt.Sprintf("%s: %d bytes reach the client and %d the buffer, specification says %d and 0", desc, toClient, toBuffer, want)
 				case !stream && (len(headers) != 0 || toClient != 0 || toBuffer != want):
 					bad = fmt.Sprintf("%s: headers sent %v, %d bytes reach the client and %d the buffer; specification: nothing is sent yet and the buffer holds the %d bytes", desc, headers, toClient, toBuffer, want)
+				}
+				if bad == "" {
+					// what the caller is told: "held back" exactly when the decision was to buffer — also for a response
+					// that consists of a header only (a redirect, a 410): told "not buffered", the caller takes it for sent
+					// and the held-back status and header are lost
+					bv, und := env.run(bf, []aval{rb})
+					if b, ok := bv.(abool); und != "" || !ok {
+						bad = desc + ": Buffered() undecided — " + und + " " + describeAval(bv)
+					} else if bool(b) == stream {
+						bad = fmt.Sprintf("%s: Buffered() answers %v; the response %s", desc, bool(b), map[bool]string{true: "was streamed to the client", false: "is held back, and a caller told otherwise never sends its status and header"}[stream])
+					}
 				}
 				if bad != "" {
 					break
